@@ -393,9 +393,14 @@ func produce(repo string) ([]byte, []string) {
 	ds = append(ds, cmpDefs(tab, tableGo, "NearestPeers", []string{"kb_nearest_short_right", "kb_nearest_short_left"}, "(have count : Z)", pc, "pds.Len()\x00", "count")...)
 	ds = append(ds, cmpDefs(tab, tableGo, "NearestPeers", []string{"kb_nearest_truncate"}, "(count have : Z)", pc, "count\x00", "pds.Len()")...)
 
+	// lock discipline of the three exported operations
+	ds = append(ds, lockShapeDef(tab, "kb_locks_update", "Update"), lockShapeDef(tab, "kb_locks_remove", "Remove"),
+		lockShapeDef(tab, "kb_locks_nearest", "NearestPeers"))
+
 	var b bytes.Buffer
 	b.WriteString("(* GENERATED by harness/drivers/c37 (gen.go) from /repo's current source and linked packages on every run. Do not edit. *)\n")
-	b.WriteString("From Coq Require Import ZArith NArith Bool.\nLocal Open Scope Z_scope.\n\n")
+	b.WriteString("From Coq Require Import ZArith NArith Bool List.\nLocal Open Scope Z_scope.\n\n")
+	b.WriteString(lockPreamble)
 	for _, d := range ds {
 		if d.comment != "" {
 			fmt.Fprintf(&b, "(* %s *)\n", strings.ReplaceAll(d.comment, "*)", "* )"))
